@@ -50,12 +50,14 @@ Init ==
     /\ nchg = 0 /\ nfail = 0 /\ noth = 0 /\ nref = 0 /\ prog = [rev |-> 0, lw |-> 0] /\ attempted = << >> /\ first = << >>
 
 \* ------------------------------------------------------------- environment
-UserUpsert(k) ==
+\* (the content version is a parameter: the trace specification binds it to the logged one)
+UserUpsertV(k, v) ==
     /\ nchg < MaxChanges
-    /\ obj' = [obj EXCEPT ![k] = [live |-> TRUE, ver |-> nchg + 1, st |-> "P", sid |-> nsid + 1, rev |-> trev + 1, other |-> 0]]
+    /\ obj' = [obj EXCEPT ![k] = [live |-> TRUE, ver |-> v, st |-> "P", sid |-> nsid + 1, rev |-> trev + 1, other |-> 0]]
     /\ del' = [del EXCEPT ![k] = 0]
     /\ trev' = trev + 1 /\ nsid' = nsid + 1 /\ nchg' = nchg + 1
     /\ UNCHANGED << cur, phase, snap, results, retry, target, nproc, nfail, noth, nref, prog, attempted, first >>
+UserUpsert(k) == UserUpsertV(k, nchg + 1)
 
 UserDelete(k) ==
     /\ nchg < MaxChanges /\ obj[k].live
@@ -110,40 +112,45 @@ AddRetry(r, k, rev, orig, isdel, ver, other) ==
     Put(r, k, [left |-> Backoff(n), n |-> n, rev |-> rev, orig |-> o, isdel |-> isdel, ver |-> ver,
                other |-> other, queued |-> TRUE])
 
-\* process the next change of the snapshot (in revision order)
-ProcessChange ==
-    /\ phase = "changes"
-    /\ LET P == Pending(snap, cur) IN
-       IF P = {} \/ nproc >= RoundSize
-       THEN /\ phase' = "commit1"
-            /\ UNCHANGED << cur, results, retry, target, nproc, nfail, attempted, first >>
-       ELSE LET c == CHOOSE x \in P : \A y \in P : x[2] <= y[2]
-                k == c[1] IN
-            /\ cur' = c[2]
-            /\ phase' = "changes"
-            /\ IF ~c[3] /\ snap.obj[k].st \notin {"P", "R"}
-               THEN \* not pending: skipped (failures are the business of the retry queue)
-                    UNCHANGED << results, retry, target, nproc, nfail, attempted, first >>
-               ELSE \E ok \in Outcomes :
-                      /\ nfail' = IF ok THEN nfail ELSE nfail + 1
-                      /\ nproc' = nproc + 1
-                      /\ attempted' = Put(attempted, k, c[2])
-                      /\ first' = Put(first, k, c[2])
-                      /\ IF c[3]
-                         THEN /\ target' = IF ok THEN Del(target, k) ELSE target
-                              /\ retry' = IF ok THEN Del(retry, k) ELSE AddRetry(Del(retry, k), k, c[2], c[2], TRUE, 0, 0)
-                              /\ UNCHANGED results
-                         ELSE /\ target' = IF ok THEN Put(target, k, snap.obj[k].ver) ELSE target
-                              /\ retry' = Del(retry, k)       \* Clear: the object has changed
-                              /\ results' = Put(results, k, [ver |-> snap.obj[k].ver, rev |-> c[2], sid |-> snap.obj[k].sid,
-                                                             ok |-> ok, other |-> snap.obj[k].other])
-    /\ UNCHANGED << obj, del, trev, nsid, snap, nchg, noth, nref, prog >>
+\* process the next change of the snapshot (in revision order).  The sub-actions take the round size and the
+\* outcome as parameters so that the trace specification (trace/RecAlgTrace.tla) can bind them to logged values.
+NextChange == LET P == Pending(snap, cur) IN CHOOSE x \in P : \A y \in P : x[2] <= y[2]
+ChangesEnd(rs) ==
+    /\ phase = "changes" /\ (Pending(snap, cur) = {} \/ nproc >= rs)
+    /\ phase' = "commit1"
+    /\ UNCHANGED << obj, del, trev, nsid, snap, nchg, noth, nref, prog, cur, results, retry, target, nproc, nfail, attempted, first >>
+\* not pending: skipped (failures are the business of the retry queue)
+ChangeSkip(rs) ==
+    /\ phase = "changes" /\ Pending(snap, cur) # {} /\ nproc < rs
+    /\ LET c == NextChange IN ~c[3] /\ snap.obj[c[1]].st \notin {"P", "R"} /\ cur' = c[2]
+    /\ UNCHANGED << obj, del, trev, nsid, snap, nchg, noth, nref, prog, phase, results, retry, target, nproc, nfail, attempted, first >>
+ChangeOp(rs, ok) ==
+    /\ phase = "changes" /\ Pending(snap, cur) # {} /\ nproc < rs
+    /\ LET c == NextChange
+           k == c[1] IN
+       /\ c[3] \/ snap.obj[k].st \in {"P", "R"}
+       /\ cur' = c[2]
+       /\ nfail' = IF ok THEN nfail ELSE nfail + 1
+       /\ nproc' = nproc + 1
+       /\ attempted' = Put(attempted, k, c[2])
+       /\ first' = Put(first, k, c[2])
+       /\ IF c[3]
+          THEN /\ target' = IF ok THEN Del(target, k) ELSE target
+               /\ retry' = IF ok THEN Del(retry, k) ELSE AddRetry(Del(retry, k), k, c[2], c[2], TRUE, 0, 0)
+               /\ UNCHANGED results
+          ELSE /\ target' = IF ok THEN Put(target, k, snap.obj[k].ver) ELSE target
+               /\ retry' = Del(retry, k)       \* Clear: the object has changed
+               /\ results' = Put(results, k, [ver |-> snap.obj[k].ver, rev |-> c[2], sid |-> snap.obj[k].sid,
+                                              ok |-> ok, other |-> snap.obj[k].other])
+    /\ UNCHANGED << obj, del, trev, nsid, snap, nchg, noth, nref, prog, phase >>
+ProcessChange == ChangesEnd(RoundSize) \/ ChangeSkip(RoundSize) \/ \E ok \in Outcomes : ChangeOp(RoundSize, ok)
 
 \* one write transaction commits all statuses of the round
+\* (the implementation ranges over a Go map: the results are written in any order, here `ord`)
 RECURSIVE CommitAll(_, _, _, _, _)
-CommitAll(ks, o, r, tr, sid) ==
-    IF ks = {} THEN [obj |-> o, retry |-> r, trev |-> tr, nsid |-> sid]
-    ELSE LET k == CHOOSE x \in ks : TRUE
+CommitAll(ord, o, r, tr, sid) ==
+    IF ord = << >> THEN [obj |-> o, retry |-> r, trev |-> tr, nsid |-> sid]
+    ELSE LET k == Head(ord)
              res == results[k]
              cu == o[k]
              st2 == IF res.ok THEN "D" ELSE "E"
@@ -160,11 +167,12 @@ CommitAll(ks, o, r, tr, sid) ==
              rother == IF Variant = "staleRetry" THEN res.other ELSE other2
              r2 == IF write /\ ~res.ok THEN AddRetry(r, k, tr2, res.rev, FALSE, res.ver, rother)
                    ELSE IF res.ok THEN Del(r, k) ELSE r
-         IN CommitAll(ks \ {k}, o2, r2, tr2, sid2)
+         IN CommitAll(Tail(ord), o2, r2, tr2, sid2)
 
-CommitStatus ==
+Orders(S) == { q \in [1..Cardinality(S) -> S] : { q[i] : i \in 1..Cardinality(S) } = S }
+CommitStatusO(ord) ==
     /\ phase \in {"commit1", "commit2"}
-    /\ LET c == CommitAll(DOMAIN results, obj, retry, trev, nsid) IN
+    /\ LET c == CommitAll(ord, obj, retry, trev, nsid) IN
        /\ obj' = c.obj /\ retry' = c.retry /\ trev' = c.trev /\ nsid' = c.nsid
     /\ results' = << >>
     /\ IF phase = "commit1" THEN phase' = "retries" /\ prog' = prog
@@ -173,28 +181,29 @@ CommitStatus ==
                         lw |-> LET F == { retry'[k].orig : k \in DOMAIN retry' } IN
                                IF F = {} THEN 0 ELSE CHOOSE m \in F : \A y \in F : m <= y]
     /\ UNCHANGED << del, cur, snap, target, nproc, nchg, nfail, noth, nref, attempted, first >>
+CommitStatus == \E ord \in Orders(DOMAIN results) : CommitStatusO(ord)
 
 \* retries that are due: popped from the queue (but remembered until cleared or re-added)
-ProcessRetry ==
-    /\ phase = "retries"
-    /\ LET D == { k \in DOMAIN retry : retry[k].queued /\ retry[k].left = 0 } IN
-       IF D = {} \/ nproc >= RoundSize
-       THEN /\ phase' = "commit2"
-            /\ UNCHANGED << results, retry, target, nproc, nfail, attempted >>
-       ELSE \E k \in D, ok \in Outcomes :
-              LET it == retry[k] IN
-              /\ nfail' = IF ok THEN nfail ELSE nfail + 1
-              /\ nproc' = nproc + 1
-              /\ attempted' = Put(attempted, k, IF k \in DOMAIN attempted /\ attempted[k] > it.rev THEN attempted[k] ELSE it.rev)
-              /\ phase' = "retries"
-              /\ IF it.isdel
-                 THEN /\ target' = IF ok THEN Del(target, k) ELSE target
-                      /\ retry' = IF ok THEN Del(retry, k) ELSE AddRetry(retry, k, it.rev, it.rev, TRUE, 0, 0)
-                      /\ UNCHANGED results
-                 ELSE /\ target' = IF ok THEN Put(target, k, it.ver) ELSE target
-                      /\ retry' = [retry EXCEPT ![k].queued = FALSE]
-                      /\ results' = Put(results, k, [ver |-> it.ver, rev |-> it.rev, sid |-> 0 - 1, ok |-> ok, other |-> it.other])
-    /\ UNCHANGED << obj, del, trev, nsid, cur, snap, nchg, noth, nref, prog, first >>
+DueRetries == { k \in DOMAIN retry : retry[k].queued /\ retry[k].left = 0 }
+RetriesEnd(rs) ==
+    /\ phase = "retries" /\ (DueRetries = {} \/ nproc >= rs)
+    /\ phase' = "commit2"
+    /\ UNCHANGED << obj, del, trev, nsid, cur, snap, nchg, noth, nref, prog, first, results, retry, target, nproc, nfail, attempted >>
+RetryOp(rs, k, ok) ==
+    /\ phase = "retries" /\ k \in DueRetries /\ nproc < rs
+    /\ LET it == retry[k] IN
+       /\ nfail' = IF ok THEN nfail ELSE nfail + 1
+       /\ nproc' = nproc + 1
+       /\ attempted' = Put(attempted, k, IF k \in DOMAIN attempted /\ attempted[k] > it.rev THEN attempted[k] ELSE it.rev)
+       /\ IF it.isdel
+          THEN /\ target' = IF ok THEN Del(target, k) ELSE target
+               /\ retry' = IF ok THEN Del(retry, k) ELSE AddRetry(retry, k, it.rev, it.rev, TRUE, 0, 0)
+               /\ UNCHANGED results
+          ELSE /\ target' = IF ok THEN Put(target, k, it.ver) ELSE target
+               /\ retry' = [retry EXCEPT ![k].queued = FALSE]
+               /\ results' = Put(results, k, [ver |-> it.ver, rev |-> it.rev, sid |-> 0 - 1, ok |-> ok, other |-> it.other])
+    /\ UNCHANGED << obj, del, trev, nsid, cur, snap, nchg, noth, nref, prog, first, phase >>
+ProcessRetry == RetriesEnd(RoundSize) \/ \E k \in DOMAIN retry, ok \in Outcomes : RetryOp(RoundSize, k, ok)
 
 Env == \E k \in Keys : UserUpsert(k) \/ UserDelete(k) \/ OtherWrite(k) \/ RefreshMark(k)
 Rec == RoundStart \/ ProcessChange \/ CommitStatus \/ ProcessRetry
